@@ -9,7 +9,7 @@ def patch_of(d):
     p=os.path.join(d,'patch.fixed-tree.diff')
     return p if os.path.exists(p) else os.path.join(d,'patch.diff')
 def run(prop, patch):
-    r=subprocess.run([V+'/tools/mutant.sh',prop,patch,'quick'],capture_output=True,text=True)
+    r=subprocess.run([V+"/tools/mutant.sh",prop,patch,"quick"],capture_output=True,text=True,env=dict(os.environ,GOVC_EXPECT_VIOLATION="1"))
     viol=[re.sub(r'.*/replays/[^/]*/','',l.split('replay=')[1]).strip() for l in r.stdout.splitlines() if l.startswith('VIOLATION')]
     summary=[l for l in r.stdout.splitlines() if ' quick: ' in l]
     return {'check':prop,'exit':r.returncode,'violations':viol,'summary':summary[-1] if summary else r.stdout.strip()[-200:]}
@@ -18,14 +18,17 @@ def one(sid):
     res=[run(prop,patch)]
     if res[0]['exit']==3:
         return sid,{'patch':os.path.basename(patch),'applies':False,'runs':res,'detected_by':[]}
-    if not res[0]['violations']:
+    if not res[0]['violations'] and not OWN_ONLY:
         claimed=sorted(os.path.basename(f)[:-5] for f in glob.glob(V+'/claims/C*.json'))
         for p in claimed:
             if p!=prop: res.append(run(p,patch))
     det=[r['check'] for r in res if r['violations']]
     return sid,{'patch':os.path.basename(patch),'applies':True,'runs':[r for r in res if r['violations'] or r['check']==prop],'detected_by':det}
+OWN_ONLY=False
 def main():
+    global OWN_ONLY
     args=sys.argv[1:]; j=4
+    if '--own-only' in args: OWN_ONLY=True; args.remove('--own-only')
     if args[:1]==['-j']: j=int(args[1]); args=args[2:]
     ids=args or sorted(os.listdir(V+'/seeded'))
     ids=[i for i in ids if os.path.isdir(os.path.join(V,'seeded',i))]
